@@ -107,6 +107,7 @@ def shape_body(nslots, fixed_first=None):
 
 SCRIPT_HDR = '''from Reduino import target
 target("COM3", upload=False)
+from Reduino.Sensors import Button
 from Reduino.Actuators import Led, Servo
 from Reduino.Displays import LCD
 from Reduino.Utils import sleep
@@ -128,7 +129,10 @@ def script_for(shape):
                                  f"{name} = LCD(12, 11, 5, 4, 3, 2, cols=20, rows=4, rw=10, backlight_pin=6)"],
                 "lcd_i2c": [f"{name} = LCD(i2c_addr={0x27 + i})", f"{name} = LCD(i2c_addr={0x27 + i}, cols=20, rows=4)",
                             f"{name} = LCD(cols=20, rows=4, i2c_addr={0x27 + i})"],
-                "led": [f"{name} = Led({2 + i})"] * 3}[k][var]
+                "led": [f"{name} = Led({2 + i})"] * 3,
+                # devices that make the parser inject per-pass housekeeping nodes at the top of loop()
+                "button": [f"{name} = Button({2 + i})"] * 3,
+                "lcd_anim": [f'{name} = LCD(i2c_addr={0x27 + i})\n{name}.animate("blink", 0, "hi", speed_ms=50, loop=True)'] * 3}[k][var]
         if place == 1 and k in ("servo", "led"):
             loop.append("    " + text)
         else:
@@ -156,7 +160,7 @@ def parser_link(item):
     libs = list(Reduino._collect_required_libraries(prog))
     cpp = emit(prog)
     probs = consistency(cpp, libs)
-    expect = {LIB[el[0]] for el in shape if el[0] in LIB}
+    expect = {LIB[el[0]] for el in shape if el[0] in LIB} | ({"LiquidCrystal_I2C"} if any(el[0] == "lcd_anim" for el in shape) else set())
     if set(libs) != expect:
         probs.append(f"requested {sorted(libs)} but the script declares devices needing {sorted(expect)}")
     if not probs:
@@ -190,7 +194,7 @@ def run(tier, seed, only=None):
                 continue
             items.append(("shape", f"shape/first={k}@{place}/slots={nslots}", nslots, (k, place)))
     import itertools
-    opts = [("none", 0, 0)] + [(k, p, v) for k in ("servo", "lcd_parallel", "lcd_i2c", "led")
+    opts = [("none", 0, 0), ("button", 0, 0), ("lcd_anim", 0, 0)] + [(k, p, v) for k in ("servo", "lcd_parallel", "lcd_i2c", "led")
                                for p in ((0, 1) if k in ("servo", "led") else (0,)) for v in ((0, 1, 2) if k != "led" else (0,))]
     shapes = list(itertools.product(opts, repeat=2 if tier == "quick" else 3))
     for sh in shapes:
@@ -206,7 +210,8 @@ def run(tier, seed, only=None):
                     "through the real _collect_required_libraries/_program_contains and the real emit() under pysym: on "
                     "every path requested libraries, #include lines and global objects of the library classes must agree "
                     "(none twice, none missing).  The solver's role is exhaustive path enumeration of the configuration "
-                    "space within the bound (there is no data to quantify over).  Parser link: the same shapes as script "
+                    "space within the bound (there is no data to quantify over).  Parser link: the same shapes - plus Button and "
+                    "animated-LCD devices, for which the parser injects housekeeping nodes at the top of loop() - as script "
                     "text through parse() and the compiler front end.",
         functions_encoded=["Reduino._program_contains", "Reduino._collect_required_libraries", "Reduino.transpile.emitter.emit "
                            "(include/global stitching)", "parser LCD interface selection (through parse())"],
